@@ -206,6 +206,12 @@ def body(ctx):
     prelude = witness.DEFAULT_PRELUDE + hdrs + "namespace auv { template <int N> struct Row { bool v[N]; }; }\n"
     atoms.readout_units(ctx, units, prelude)
     pfx = trees.readout_prefixes(ctx, trees.discover_prefixes(ctx), prelude)
+    from vlib import witness as _w
+    fixed_items = [_w.Item("anchor:dimensions", atoms.anchor_code(units), "accept", None, dict(desc="the nine dimension aliases are the nine base dimensions, and each base unit measures its own"))]
+    for u in units:
+        if u.declared:
+            fixed_items.append(_w.Item("spelling:%s" % u.name, atoms.spelling_code(u), "accept", None,
+                                       dict(desc="every spelling object declared in %s (%s) denotes %s" % (u.header, ", ".join(q for _, q in u.declared), u.name))))
     gid = trees.collision_groups(units)
     byname = {u.name: u for u in units}
     ntrees = 8000 if ctx.thorough else 400
@@ -248,6 +254,7 @@ def body(ctx):
         npairs += 1
     ostats, oitems = order_tables(ctx, units, pfx, prelude, rnd)
     items += oitems
+    items += fixed_items
     ctx.log("%d trees (%d skipped: documented collision), %d pairs, ordering: %s" % (len(ts), skipped, npairs, ostats))
     ctx.require(len(ts) >= 300, "only %d trees generated" % len(ts))
     results, stats = witness.judge(ctx, items, configs, prelude=prelude, batch=40, tag="c02")
